@@ -27,6 +27,14 @@ CLAIMED = {
              'every op; oracle = dictionary-of-traces reference.',
         ref='DESIGN.md §6 C12', note='File I/O of the readers is exercised by the correspondence only; FST traces are not modelled (pylibfst absent).',
         technique='Lean 4 proof (invariant over all op sequences, refinement to a dict of traces) + correspondence'),
+    'C19': dict(
+        text='Theorems over the model of set_sampling_points / set_max_index for every trace and index list: sample_index0, sample_ts '
+             '(MAX-INDEX = number of distinct selected samples - 1, TS at j = original timestamp of the j-th distinct sample), sample_value '
+             '(every signal at j reads the original column at L\'[j]), resample_refers_to_original, trim_spec. Correspondence: resampling / '
+             'trimming / navigation histories with a full probe of every new index incl. a virtual signal, @ offsets, find and count; '
+             'oracle = the original trace at L\'[j].',
+        ref='DESIGN.md §6 C19', note='Assumes strictly increasing timestamps (samples are identified by timestamp); trimming below the current position is outside the property.',
+        technique='Lean 4 proof (pointwise denotation of the re-indexed trace) + correspondence'),
 }
 
 REASONS_PENDING = 'check under construction in this round (DESIGN.md §13 build order); not a claim of inapplicability'
